@@ -68,6 +68,7 @@ class PDFInterpreterError(PDFException):
 LITERAL_PDF = LIT("PDF")
 LITERAL_TEXT = LIT("Text")
 LITERAL_FONT = LIT("Font")
+LITERAL_TYPE0 = LIT("Type0")
 LITERAL_FORM = LIT("Form")
 LITERAL_IMAGE = LIT("Image")
 
@@ -238,13 +239,20 @@ class PDFResourceManager:
                 font = PDFCIDFont(self, spec)
             elif subtype == "Type0":
                 # Type0 Font
-                dfonts = list_value(spec["DescendantFonts"])
-                assert dfonts
-                subspec = dict_value(dfonts[0]).copy()
+                dfonts = list_value(spec.get("DescendantFonts"))
+                subspec = dict_value(dfonts[0]).copy() if dfonts else dict(spec)
                 for k in ("Encoding", "ToUnicode"):
                     if k in spec:
                         subspec[k] = resolve1(spec[k])
-                font = self.get_font(None, subspec)
+                if dfonts and resolve1(subspec.get("Subtype")) is not LITERAL_TYPE0:
+                    font = self.get_font(None, subspec)
+                else:
+                    # There is no descendant, or it is a Type0 font again (the
+                    # font itself, for one), which would be followed for ever.
+                    if settings.STRICT:
+                        raise PDFFontError("Invalid DescendantFonts: %r" % spec)
+                    log.warning("Type0 font without a CIDFont descendant: %r", spec)
+                    font = PDFCIDFont(self, subspec)
             else:
                 if settings.STRICT:
                     raise PDFFontError("Invalid Font spec: %r" % spec)
